@@ -84,3 +84,126 @@ def _(c):
     c.returns(lambda ex: (ex.fresh_int("tag"), ex.fresh_bytes("body"), ex.fresh_bytes("rest")))
     c.ensures(lambda result: And_(0 <= result[0], result[0] <= 31), "tag-range")
     c.ensures(lambda string, result: beq(string, cat(S.enc_ctx(result[0], result[1]), result[2])), "canonical")
+
+
+def is_sentry(x):
+    """the `_sentry` default: symbolic Sentinel in the engine, the real object() at run time"""
+    from pyvc.interp import Sentinel
+    from pyvc import loader
+    return isinstance(x, Sentinel) or x is loader.module("ecdsa.der").real._sentry
+
+
+def _sentry(ex, name):
+    from pyvc import loader
+    return ex.convert(loader.module("ecdsa.der").real._sentry, name="ecdsa.der._sentry")
+
+
+def _none(ex, name):
+    return None
+
+
+@contract("ecdsa.der.encode_bitstring", props=["C11", "C09"], s=Bytes, unused=Int)
+def _(c):
+    c.case("int", unused=Int)
+    c.case("none", unused=_none)
+    c.case("legacy", unused=_sentry)
+    c.requires(lambda s: blen(s) + 1 < 256 ** 126)
+    c.raises("ValueError", only_if=lambda s, unused: Not_(S.bits_ok(s, unused)) if unused is not None and not is_sentry(unused) else False)
+    c.returns(lambda ex: ex.fresh_bytes("enc"))
+    c.ensures(lambda s, unused, result:
+              beq(result, S.tlv(0x03, s)) if (unused is None or is_sentry(unused))
+              else And_(S.bits_ok(s, unused), beq(result, S.enc_bits(s, unused))), "canonical")
+
+
+@contract("ecdsa.der.remove_bitstring", props=["C11", "C10", "C09"], string=Bytes, expect_unused=Int)
+def _(c):
+    c.case("int", expect_unused=Int)
+    c.case("none", expect_unused=_none)
+    c.case("legacy", expect_unused=_sentry)
+    c.raises(DER)
+
+    def mk(ex, expect_unused):
+        if expect_unused is None:
+            return ((ex.fresh_bytes("body"), ex.fresh_int("unused")), ex.fresh_bytes("rest"))
+        return (ex.fresh_bytes("body"), ex.fresh_bytes("rest"))
+    c.returns(mk)
+
+    def post(string, expect_unused, result):
+        if expect_unused is None:
+            (body, unused), rest = result
+            return And_(S.bits_ok(body, unused), beq(string, cat(S.enc_bits(body, unused), rest)))
+        body, rest = result
+        if is_sentry(expect_unused):      # legacy call: the unused-bits octet is left in the body
+            return And_(blen(body) >= 1, beq(string, cat(S.tlv(0x03, body), rest)))
+        return And_(S.bits_ok(body, expect_unused), beq(string, cat(S.enc_bits(body, expect_unused), rest)))
+    c.ensures(post, "canonical")
+
+
+# ---------------------------------------------------------------------------------------------
+# finite domains (concretiser / bounded cross-check of the real functions)
+from spec import domains as D
+from pyvc.bounded import Recipe
+
+
+def _dec_domain(tier, seed):
+    for s in D.der_strings(tier):
+        yield dict(string=s)
+
+
+for _q in ("read_length", "remove_integer", "remove_octet_string", "remove_sequence", "remove_constructed"):
+    from pyvc.contract import REGISTRY as _R
+    _R["ecdsa.der." + _q].domain = _dec_domain
+
+
+def _bits_domain(tier, seed):
+    modes = [0, 1, 4, 7, 8, None, Recipe("ecdsa.der._sentry")]
+    for s in D.der_strings(tier):
+        if len(s) > 600:
+            continue
+        for m in modes:
+            yield dict(string=s, expect_unused=m)
+
+
+_R["ecdsa.der.remove_bitstring"].domain = _bits_domain
+
+
+def _int_domain(tier, seed):
+    for v in D.ints_edge() + list(range(0, 70000 if tier == "thorough" else 3000)):
+        yield dict(r=v, l=v)
+
+
+_R["ecdsa.der.encode_integer"].domain = _int_domain
+_R["ecdsa.der.encode_length"].domain = _int_domain
+
+
+def _body_domain(tier, seed):
+    for b in D.bodies():
+        yield dict(s=b, value=b, tag=0)
+        yield dict(s=b, value=b, tag=1)
+        yield dict(s=b, value=b, tag=30)
+
+
+_R["ecdsa.der.encode_octet_string"].domain = _body_domain
+_R["ecdsa.der.encode_constructed"].domain = _body_domain
+
+
+def _encbits_domain(tier, seed):
+    for b in D.bodies() + [b"\xf0", b"\x80", b"\xab\xc0", b"\xff"]:
+        for u in (0, 1, 4, 7, 8, -1, None, Recipe("ecdsa.der._sentry")):
+            yield dict(s=b, unused=u)
+
+
+_R["ecdsa.der.encode_bitstring"].domain = _encbits_domain
+
+
+def _seq_domain(tier, seed):
+    bs = D.bodies()[:14]
+    for a in bs:
+        yield dict(encoded_pieces=(a,))
+        for b in bs[:5]:
+            yield dict(encoded_pieces=(a, b))
+            yield dict(encoded_pieces=(a, b, a))
+            yield dict(encoded_pieces=(b, a, b, a))
+
+
+_R["ecdsa.der.encode_sequence"].domain = _seq_domain
